@@ -88,5 +88,663 @@ pub fn run(ctx: &mut Ctx) {
                 }
             }
         }
+        epmd_cases(ctx).await;
+        connect_cases(ctx).await;
+        // later domains of this process (none today) expect the shared stand-in again
+        edp_client::verif_hooks::set_epmd_port(epmd.port);
     });
+}
+
+// ---------------------------------------------------------------------------------------------------------------------
+// EPMD client (`epmd_client.rs`): PORT_PLEASE2_REQ / PORT2_RESP and ALIVE2_REQ / ALIVE2_RESP / ALIVE2_X_RESP against a
+// scripted EPMD that sends exactly the bytes of the case and then closes or stays silent. Tied to `Impl/Epmd.lean`.
+// ---------------------------------------------------------------------------------------------------------------------
+use crate::canon::hexarg;
+use edp_client::epmd_client::{EpmdClient, NodeInfo, NodeType};
+use edp_client::Error;
+use tokio::io::{AsyncReadExt, AsyncWriteExt};
+use tokio::net::TcpListener;
+
+const EPMD_TIMEOUT_MS: u64 = 150;
+
+/// accepts one connection, reads `want` request bytes (gives up after 400 ms), sends `reply`, then closes, or keeps the
+/// socket open without another byte until the client has gone; returns the request bytes it saw
+async fn scripted_epmd(reply: Vec<u8>, close: bool, want: usize) -> (u16, tokio::task::JoinHandle<Vec<u8>>) {
+    let l = TcpListener::bind("127.0.0.1:0").await.unwrap();
+    let port = l.local_addr().unwrap().port();
+    let h = tokio::spawn(async move {
+        let Ok((mut s, _)) = l.accept().await else { return vec![] };
+        let _ = s.set_nodelay(true);
+        let mut req = vec![0u8; want];
+        let mut got = 0;
+        let _ = tokio::time::timeout(Duration::from_millis(400), async {
+            while got < want {
+                match s.read(&mut req[got..]).await {
+                    Ok(0) | Err(_) => break,
+                    Ok(n) => got += n,
+                }
+            }
+        })
+        .await;
+        req.truncate(got);
+        let _ = s.write_all(&reply).await;
+        let _ = s.flush().await;
+        if !close {
+            // silence: nothing more, socket open until the client gives up (it closes its end) or 3 s
+            let mut sink = [0u8; 64];
+            let _ = tokio::time::timeout(Duration::from_millis(3000), async {
+                loop {
+                    match s.read(&mut sink).await {
+                        Ok(0) | Err(_) => break,
+                        _ => {}
+                    }
+                }
+            })
+            .await;
+        }
+        req
+    });
+    (port, h)
+}
+
+fn epmd_eclass(e: &Error) -> String {
+    match e {
+        Error::Io(e) if e.kind() == std::io::ErrorKind::UnexpectedEof => "eof".into(),
+        Error::Io(e) => format!("io-{:?}", e.kind()),
+        Error::Timeout(_) => "timeout".into(),
+        Error::EpmdLookup { .. } => "notfound".into(),
+        Error::EpmdRegistration { reason } => format!("regerr-{}", reason.rsplit(' ').next().unwrap_or("")),
+        Error::EpmdProtocol(m) => {
+            let num = m.rsplit(": ").next().unwrap_or("").split(' ').next().unwrap_or("").to_string();
+            if m.starts_with("Unknown node type") {
+                format!("badtype-{}", num)
+            } else if m.starts_with("Unknown protocol") {
+                format!("badproto-{}", num)
+            } else if m.starts_with("Node name too long") {
+                format!("namelong-{}", num)
+            } else if m.starts_with("Invalid UTF-8") {
+                "badutf8".into()
+            } else if m.starts_with("Extra data too long") {
+                format!("extralong-{}", num)
+            } else if m.starts_with("Unexpected response type") {
+                format!("badresp-{}", num)
+            } else if m.starts_with("Failed to connect") {
+                "noepmd".into()
+            } else {
+                format!("proto-{}", m.replace(' ', "_"))
+            }
+        }
+        _ => "other".into(),
+    }
+}
+
+fn info_text(i: &NodeInfo) -> String {
+    format!(
+        "ok {} {} {} {} {} {} {}",
+        i.port, i.node_type as u8, i.protocol as u8, i.highest_version, i.lowest_version, hexarg(i.node_name.as_bytes()), hexarg(&i.extra)
+    )
+}
+
+fn port2_resp(port: u16, ty: u8, proto: u8, hi: u16, lo: u16, nlen: u16, name: &[u8], elen: u16, extra: &[u8]) -> Vec<u8> {
+    let mut r = vec![119u8, 0];
+    r.extend_from_slice(&port.to_be_bytes());
+    r.push(ty);
+    r.push(proto);
+    r.extend_from_slice(&hi.to_be_bytes());
+    r.extend_from_slice(&lo.to_be_bytes());
+    r.extend_from_slice(&nlen.to_be_bytes());
+    r.extend_from_slice(name);
+    r.extend_from_slice(&elen.to_be_bytes());
+    r.extend_from_slice(extra);
+    r
+}
+
+/// one real `lookup_node` against the scripted EPMD
+async fn lookup_case(ctx: &mut Ctx, tag: &str, name: &str, reply: Vec<u8>, close: bool) {
+    let want = 3 + name.len();
+    let (port, srv) = scripted_epmd(reply.clone(), close, want).await;
+    let client = EpmdClient::with_port("127.0.0.1", port).with_timeout(Duration::from_millis(EPMD_TIMEOUT_MS));
+    let n2 = name.to_string();
+    let t0 = std::time::Instant::now();
+    let call = tokio::spawn(async move { client.lookup_node(&n2).await });
+    let res = match tokio::time::timeout(Duration::from_millis(2500), call).await {
+        Err(_) => "hang".to_string(),
+        Ok(Err(j)) => if j.is_panic() { "panic".to_string() } else { "cancelled".to_string() },
+        Ok(Ok(Ok(i))) => info_text(&i),
+        Ok(Ok(Err(e))) => format!("err {}", epmd_eclass(&e)),
+    };
+    let elapsed = t0.elapsed();
+    let req = tokio::time::timeout(Duration::from_millis(3500), srv).await.ok().and_then(|r| r.ok()).unwrap_or_default();
+    ctx.count(&format!("epmd_lookup_{}", res.split(' ').take(2).collect::<Vec<_>>().join("_").chars().take(28).collect::<String>()));
+    let reqtxt = if res == "panic" { "-".to_string() } else if req.len() > 600 { format!("len{}fnv{}", req.len(), fnv(&req)) } else { hexarg(&req) };
+    ctx.tie(tag, &format!("c04epmd_lookup {} {} {}", name_arg(name), hexarg(&reply), if close { "close" } else { "open" }), &format!("req={} {}", reqtxt, res));
+    // the property on the implementation: an incomplete or silent EPMD ends in an error within the configured timeout
+    if res == "hang" || elapsed > Duration::from_millis(EPMD_TIMEOUT_MS * 16) {
+        ctx.fail("c04-epmd-not-within-timeout", &format!("lookup_node name={} reply={} {} took {} ms (configured {} ms): {}", name_arg(name), hexarg(&reply), if close { "close" } else { "open" }, elapsed.as_millis(), EPMD_TIMEOUT_MS, res));
+    }
+    if res == "panic" && name.len() <= 255 {
+        ctx.fail("c04-epmd-panic", &format!("lookup_node name={} reply={}", name_arg(name), hexarg(&reply)));
+    }
+    // judged by the Spec: `ok` only for a reply that is a well-formed PORT2_RESP, and then exactly its fields
+    if name.len() <= 255 {
+        ctx.count("epmd_lookup_judged");
+    }
+    if name.len() <= 255 || res != "panic" {
+    ctx.prop("epmd", &format!("c04p_epmd_lookup {} {} {}", hexarg(&reply), if close { "close" } else { "open" }, res.replace(' ', ",")), "ok");
+    }
+}
+
+fn fnv(b: &[u8]) -> u32 {
+    let mut h: u32 = 2166136261;
+    for x in b {
+        h ^= *x as u32;
+        h = h.wrapping_mul(16777619);
+    }
+    h
+}
+
+/// long names are passed as `rep<len>` (the byte 'n' repeated)
+fn name_arg(name: &str) -> String {
+    if name.len() > 300 { format!("rep{}", name.len()) } else { hexarg(name.as_bytes()) }
+}
+
+async fn register_case(ctx: &mut Ctx, port_arg: u16, name: &str, ty: NodeType, hi: u16, lo: u16, extra: &[u8], reply: Vec<u8>, close: bool) {
+    let want = 2 + 13 + name.len() + extra.len();
+    let (port, srv) = scripted_epmd(reply.clone(), close, want).await;
+    let client = EpmdClient::with_port("127.0.0.1", port).with_timeout(Duration::from_millis(EPMD_TIMEOUT_MS));
+    let (n2, e2) = (name.to_string(), extra.to_vec());
+    let t0 = std::time::Instant::now();
+    let call = tokio::spawn(async move { client.register_node(port_arg, &n2, ty, hi, lo, &e2).await });
+    let res = match tokio::time::timeout(Duration::from_millis(2500), call).await {
+        Err(_) => "hang".to_string(),
+        Ok(Err(j)) => if j.is_panic() { "panic".to_string() } else { "cancelled".to_string() },
+        Ok(Ok(Ok(c))) => format!("ok {}", c),
+        Ok(Ok(Err(e))) => format!("err {}", epmd_eclass(&e)),
+    };
+    let elapsed = t0.elapsed();
+    let req = tokio::time::timeout(Duration::from_millis(3500), srv).await.ok().and_then(|r| r.ok()).unwrap_or_default();
+    ctx.count(&format!("epmd_register_{}", res.split(' ').next().unwrap_or("")));
+    let reqtxt = if req.len() > 600 { format!("len{}fnv{}", req.len(), fnv(&req)) } else { hexarg(&req) };
+    let extra_arg = if extra.len() > 300 { format!("rep{}", extra.len()) } else { hexarg(extra) };
+    ctx.tie(
+        "epmd-register",
+        &format!("c04epmd_register {} {} {} {} {} {} {} {}", port_arg, name_arg(name), ty as u8, hi, lo, extra_arg, hexarg(&reply), if close { "close" } else { "open" }),
+        &format!("req={} {}", reqtxt, res),
+    );
+    if res == "hang" || elapsed > Duration::from_millis(EPMD_TIMEOUT_MS * 16) {
+        ctx.fail("c04-epmd-not-within-timeout", &format!("register_node name={} reply={} {} took {} ms: {}", name_arg(name), hexarg(&reply), if close { "close" } else { "open" }, elapsed.as_millis(), res));
+    }
+}
+
+async fn epmd_cases(ctx: &mut Ctx) {
+    // a well-formed reply and every prefix of it, followed by a close
+    let full = port2_resp(4370, 77, 0, 6, 5, 3, b"abc", 2, &[9, 8]);
+    lookup_case(ctx, "epmd-lookup", "abc", full.clone(), true).await;
+    for n in 0..full.len() {
+        lookup_case(ctx, "epmd-truncated", "abc", full[..n].to_vec(), true).await;
+    }
+    // silence (socket stays open) after a part of the reply: every field boundary
+    for n in [0usize, 1, 2, 4, 6, 10, 12, 14, 16] {
+        lookup_case(ctx, "epmd-silent", "abc", full[..n].to_vec(), false).await;
+    }
+    lookup_case(ctx, "epmd-lookup", "abc", full.clone(), false).await;
+    // trailing bytes after a complete reply are not read
+    lookup_case(ctx, "epmd-lookup", "abc", [full.clone(), vec![1, 2, 3]].concat(), true).await;
+    // result byte, response tag, node type, protocol: every interesting value
+    for r in [1u8, 2, 255] {
+        lookup_case(ctx, "epmd-lookup", "abc", vec![119, r], true).await;
+        lookup_case(ctx, "epmd-lookup", "abc", vec![119, r], false).await;
+    }
+    for t in [0u8, 118, 120, 121, 122, 255] {
+        lookup_case(ctx, "epmd-lookup", "abc", [vec![t], full[1..].to_vec()].concat(), true).await;
+    }
+    for ty in [72u8, 104, 77, 0, 78, 73, 255] {
+        lookup_case(ctx, "epmd-lookup", "abc", port2_resp(1, ty, 0, 6, 5, 1, b"x", 0, &[]), true).await;
+    }
+    for pr in [1u8, 255] {
+        lookup_case(ctx, "epmd-lookup", "abc", port2_resp(1, 77, pr, 6, 5, 1, b"x", 0, &[]), true).await;
+    }
+    // name length field: 0, 255 (largest accepted), 256, 65535 (refused before any buffer); declared longer than sent
+    let n255 = vec![b'n'; 255];
+    lookup_case(ctx, "epmd-lookup", "abc", port2_resp(65535, 72, 0, 65535, 0, 0, b"", 0, &[]), true).await;
+    lookup_case(ctx, "epmd-lookup", "abc", port2_resp(0, 77, 0, 6, 5, 255, &n255, 0, &[]), true).await;
+    lookup_case(ctx, "epmd-lookup", "abc", port2_resp(0, 77, 0, 6, 5, 256, &vec![b'n'; 256], 0, &[]), true).await;
+    lookup_case(ctx, "epmd-lookup", "abc", port2_resp(0, 77, 0, 6, 5, 65535, b"abc", 0, &[]), false).await;
+    lookup_case(ctx, "epmd-lookup", "abc", port2_resp(0, 77, 0, 6, 5, 200, b"abc", 0, &[]), true).await;
+    lookup_case(ctx, "epmd-lookup", "abc", port2_resp(0, 77, 0, 6, 5, 200, b"abc", 0, &[]), false).await;
+    // names that are not UTF-8, and multi-byte ones
+    lookup_case(ctx, "epmd-lookup", "abc", port2_resp(7, 77, 0, 6, 5, 2, &[0xc3, 0x28], 0, &[]), true).await;
+    lookup_case(ctx, "epmd-lookup", "abc", port2_resp(7, 77, 0, 6, 5, 1, &[0xff], 0, &[]), true).await;
+    lookup_case(ctx, "epmd-lookup", "abc", port2_resp(7, 77, 0, 6, 5, 6, "é€x".as_bytes(), 0, &[]), true).await;
+    // extra length field: 4096 (largest accepted), 4097, 65535; declared longer than sent
+    lookup_case(ctx, "epmd-lookup", "abc", port2_resp(7, 77, 0, 6, 5, 1, b"x", 4096, &vec![7u8; 4096]), true).await;
+    lookup_case(ctx, "epmd-lookup", "abc", port2_resp(7, 77, 0, 6, 5, 1, b"x", 4097, &vec![7u8; 4097]), true).await;
+    lookup_case(ctx, "epmd-lookup", "abc", port2_resp(7, 77, 0, 6, 5, 1, b"x", 65535, &[1, 2]), false).await;
+    lookup_case(ctx, "epmd-lookup", "abc", port2_resp(7, 77, 0, 6, 5, 1, b"x", 4096, &[1, 2]), true).await;
+    lookup_case(ctx, "epmd-lookup", "abc", port2_resp(7, 77, 0, 6, 5, 1, b"x", 4096, &[1, 2]), false).await;
+    // requested names: the request this side writes (1..255 bytes on the connect path; the public call takes any length)
+    let small = port2_resp(9, 77, 0, 6, 5, 1, b"y", 0, &[]);
+    for name in ["", "a", "näme-ü", &"n".repeat(255), &"n".repeat(256), &"n".repeat(65534), &"n".repeat(65535), &"n".repeat(65536), &"n".repeat(65540)] {
+        lookup_case(ctx, "epmd-request", name, small.clone(), true).await;
+    }
+    // random replies: random fields, random cut, random junk
+    for _ in 0..ctx.n(60, 600) {
+        let nlen = *ctx.rng.pick(&[0u16, 1, 2, 5, 254, 255, 256, 300]);
+        let elen = *ctx.rng.pick(&[0u16, 1, 3, 4095, 4096, 4097]);
+        let name: Vec<u8> = (0..nlen).map(|_| if ctx.rng.chance(1, 40) { 0xfe } else { b'a' + ctx.rng.below(26) as u8 }).collect();
+        let extra = ctx.rng.bytes(elen as usize);
+        let ty = *ctx.rng.pick(&[77u8, 72, 104, 77, 77, 3]);
+        let pr = if ctx.rng.chance(1, 12) { ctx.rng.next() as u8 } else { 0 };
+        let mut r = port2_resp(ctx.rng.next() as u16, ty, pr, ctx.rng.next() as u16, ctx.rng.next() as u16, nlen, &name, elen, &extra);
+        if ctx.rng.chance(1, 10) {
+            r[1] = ctx.rng.next() as u8;
+        }
+        if ctx.rng.chance(1, 10) {
+            r[0] = ctx.rng.next() as u8;
+        }
+        let mut close = true;
+        if ctx.rng.chance(1, 3) {
+            let cut = ctx.rng.below(r.len() as u64 + 1) as usize;
+            r.truncate(cut);
+            close = !ctx.rng.chance(1, 8);
+        }
+        lookup_case(ctx, "epmd-random", "abc", r, close).await;
+    }
+    // ALIVE2_REQ and its two replies
+    let ok16 = vec![121u8, 0, 0x12, 0x34];
+    let ok32 = vec![118u8, 0, 0x12, 0x34, 0x56, 0x78];
+    for (reply, close) in [
+        (ok16.clone(), true), (ok32.clone(), true), (ok16.clone(), false), (ok32.clone(), false),
+        (vec![121, 1, 0, 0], true), (vec![118, 255, 0, 0, 0, 0], true), (vec![119, 0, 0, 0], true), (vec![0], true),
+        (vec![], true), (vec![], false), (vec![121], true), (vec![121], false), (vec![121, 0], true), (vec![121, 0, 1], true), (vec![121, 0, 1], false),
+        (vec![118, 0, 1, 2, 3], true), (vec![118, 0, 1, 2, 3], false), (vec![118, 0, 0xff, 0xff, 0xff, 0xff, 9], true),
+    ] {
+        register_case(ctx, 40000, "abc", NodeType::Hidden, 6, 5, &[], reply, close).await;
+    }
+    for (p, name, ty, hi, lo, extra) in [
+        (0u16, "", NodeType::Normal, 0u16, 0u16, vec![]),
+        (65535, "näme", NodeType::R3Hidden, 65535, 65535, vec![1, 2, 3]),
+        (1, &*"n".repeat(255), NodeType::Normal, 6, 5, vec![0u8; 10]),
+        (1, &*"n".repeat(65522), NodeType::Normal, 6, 5, vec![]),
+        (1, &*"n".repeat(65523), NodeType::Normal, 6, 5, vec![]),
+        (1, &*"n".repeat(65536), NodeType::Normal, 6, 5, vec![]),
+        (1, "x", NodeType::Normal, 6, 5, vec![5u8; 65536]),
+    ] {
+        register_case(ctx, p, name, ty, hi, lo, &extra, ok32.clone(), true).await;
+    }
+    // nobody listens on the EPMD port
+    {
+        let l = TcpListener::bind("127.0.0.1:0").await.unwrap();
+        let port = l.local_addr().unwrap().port();
+        drop(l);
+        let client = EpmdClient::with_port("127.0.0.1", port).with_timeout(Duration::from_millis(EPMD_TIMEOUT_MS));
+        let r = client.lookup_node("abc").await;
+        let txt = match r {
+            Ok(i) => info_text(&i),
+            Err(e) => format!("err {}", epmd_eclass(&e)),
+        };
+        ctx.tie("epmd-absent", "c04epmd_absent", &txt);
+    }
+}
+
+// ---------------------------------------------------------------------------------------------------------------------
+// `Connection::connect` as a sequence of transport steps: EPMD lookup, TCP connect, send_name, status, complement,
+// challenge, reply, ack — each awaited under the configured timeout. A raw scripted peer plays one event per awaited
+// read (a frame, a close, silence); result, final state, negotiated flags and every byte this side wrote are tied to
+// `Impl/Connect.lean`.
+// ---------------------------------------------------------------------------------------------------------------------
+#[derive(Clone, Debug)]
+enum Ev {
+    /// a frame: 2-byte length and this body
+    Frame(Vec<u8>),
+    Close,
+    Silent,
+}
+
+#[derive(Clone, Debug)]
+enum AckEv {
+    /// 'a' + MD5(cookie ++ decimal(the challenge in the client's reply))
+    Good,
+    /// the same with another cookie
+    OtherCookie(String),
+    /// digest of the peer's own challenge
+    ForPeerChallenge,
+    Ev(Ev),
+}
+
+fn ev_text(e: &Ev) -> String {
+    match e {
+        Ev::Frame(b) => format!("f{}", hexarg(b)),
+        Ev::Close => "close".into(),
+        Ev::Silent => "silent".into(),
+    }
+}
+
+fn conn_eclass(e: &Error) -> String {
+    match e {
+        Error::Io(_) => "io".into(),
+        Error::Timeout(_) => "timeout".into(),
+        Error::InvalidNodeName(_) => "e-nodename".into(),
+        Error::InvalidStateTransition { .. } | Error::InvalidStateMessage(_) | Error::InvalidState { .. } => "e-state".into(),
+        Error::NodeNameTooLong { .. } => "e-name".into(),
+        Error::InvalidHandshakeMessage(_) => "e-malformed".into(),
+        Error::ConnectionRefused { .. } => "e-refused".into(),
+        Error::AuthenticationFailed => "e-auth".into(),
+        Error::EpmdLookup { .. } | Error::EpmdProtocol(_) | Error::EpmdRegistration { .. } => format!("epmd-{}", epmd_eclass(e)),
+        _ => "e-other".into(),
+    }
+}
+
+struct ConnCase {
+    local: String,
+    remote: String,
+    cookie: String,
+    /// `None`: a well-formed PORT2_RESP naming the raw peer's port
+    epmd_reply: Option<(Vec<u8>, bool)>,
+    /// false: the port EPMD names has no listener
+    tcp_listens: bool,
+    status: Ev,
+    chal: Ev,
+    ack: AckEv,
+    peer_challenge: u32,
+}
+
+const CONN_TIMEOUT_MS: u64 = 150;
+
+async fn read_frame_raw(s: &mut tokio::net::TcpStream, log: &mut Vec<u8>) -> Option<Vec<u8>> {
+    let mut l = [0u8; 2];
+    s.read_exact(&mut l).await.ok()?;
+    log.extend_from_slice(&l);
+    let mut b = vec![0u8; u16::from_be_bytes(l) as usize];
+    s.read_exact(&mut b).await.ok()?;
+    log.extend_from_slice(&b);
+    Some(b)
+}
+
+async fn write_frame_raw(s: &mut tokio::net::TcpStream, body: &[u8]) {
+    let mut v = (body.len() as u16).to_be_bytes().to_vec();
+    v.extend_from_slice(body);
+    let _ = s.write_all(&v).await;
+    let _ = s.flush().await;
+}
+
+async fn hold_open(s: &mut tokio::net::TcpStream, log: &mut Vec<u8>) {
+    let mut sink = [0u8; 512];
+    let _ = tokio::time::timeout(Duration::from_millis(3000), async {
+        loop {
+            match s.read(&mut sink).await {
+                Ok(0) | Err(_) => break,
+                Ok(n) => log.extend_from_slice(&sink[..n]),
+            }
+        }
+    })
+    .await;
+}
+
+/// the raw peer: returns (every byte received, the ack frame it sent if any)
+async fn raw_peer(l: TcpListener, status: Ev, chal: Ev, ack: AckEv, cookie: String, peer_challenge: u32, done: tokio::sync::oneshot::Receiver<()>) -> (Vec<u8>, Option<Vec<u8>>) {
+    let mut log = vec![];
+    let mut s = tokio::select! {
+        r = l.accept() => match r { Ok((s, _)) => s, Err(_) => return (log, None) },
+        _ = done => return (log, None),
+    };
+    let _ = s.set_nodelay(true);
+    if read_frame_raw(&mut s, &mut log).await.is_none() {
+        return (log, None);
+    }
+    let accepting = matches!(&status, Ev::Frame(b) if b == b"sok" || b == b"sok_simultaneous");
+    for (idx, ev) in [status, chal].into_iter().enumerate() {
+        // after an accepting status the client sends its complement before it awaits the challenge: take it in first, so
+        // that a close at this point is an orderly end of stream and the log is complete whatever the scheduling
+        if idx == 1 && accepting && !matches!(ev, Ev::Frame(_)) {
+            let _ = tokio::time::timeout(Duration::from_millis(1500), read_frame_raw(&mut s, &mut log)).await;
+        }
+        match ev {
+            Ev::Frame(b) => write_frame_raw(&mut s, &b).await,
+            Ev::Close => {
+                // read what is in flight first so that the close is an orderly end of stream, not a reset
+                let mut sink = [0u8; 512];
+                while let Ok(Ok(n)) = tokio::time::timeout(Duration::from_millis(30), s.read(&mut sink)).await {
+                    if n == 0 {
+                        break;
+                    }
+                    log.extend_from_slice(&sink[..n]);
+                }
+                return (log, None);
+            }
+            Ev::Silent => {
+                hold_open(&mut s, &mut log).await;
+                return (log, None);
+            }
+        }
+    }
+    // complement, then the reply (whatever the client sends until it stops)
+    let mut reply = None;
+    for _ in 0..2 {
+        match tokio::time::timeout(Duration::from_millis(600), read_frame_raw(&mut s, &mut log)).await {
+            Ok(Some(m)) => {
+                if m.first() == Some(&b'r') {
+                    reply = Some(m);
+                    break;
+                }
+            }
+            _ => break,
+        }
+    }
+    let Some(reply) = reply else { return (log, None) };
+    let cc = if reply.len() >= 5 { u32::from_be_bytes([reply[1], reply[2], reply[3], reply[4]]) } else { 0 };
+    let frame = match ack {
+        AckEv::Good => Ev::Frame([vec![b'a'], digest(&cookie, cc).to_vec()].concat()),
+        AckEv::OtherCookie(c) => Ev::Frame([vec![b'a'], digest(&c, cc).to_vec()].concat()),
+        AckEv::ForPeerChallenge => Ev::Frame([vec![b'a'], digest(&cookie, peer_challenge).to_vec()].concat()),
+        AckEv::Ev(e) => e,
+    };
+    match frame {
+        Ev::Frame(b) => {
+            write_frame_raw(&mut s, &b).await;
+            hold_open(&mut s, &mut log).await;
+            (log, Some(b))
+        }
+        Ev::Close => (log, None),
+        Ev::Silent => {
+            hold_open(&mut s, &mut log).await;
+            (log, None)
+        }
+    }
+}
+
+async fn connect_case(ctx: &mut Ctx, tag: &str, c: ConnCase) {
+    let l = TcpListener::bind("127.0.0.1:0").await.unwrap();
+    let peer_port = l.local_addr().unwrap().port();
+    let node = c.remote.split('@').next().unwrap_or("").to_string();
+    let (reply, close) = match &c.epmd_reply {
+        Some((r, cl)) => (r.clone(), *cl),
+        None => (port2_resp(peer_port, 77, 0, 6, 5, node.len() as u16, node.as_bytes(), 0, &[]), true),
+    };
+    let (eport, esrv) = scripted_epmd(reply.clone(), close, 3 + node.len()).await;
+    edp_client::verif_hooks::set_epmd_port(eport);
+    let (done_tx, done_rx) = tokio::sync::oneshot::channel::<()>();
+    let peer = if c.tcp_listens {
+        Some(tokio::spawn(raw_peer(l, c.status.clone(), c.chal.clone(), c.ack.clone(), c.cookie.clone(), c.peer_challenge, done_rx)))
+    } else {
+        drop(l);
+        None
+    };
+    let cfg = ConnectionConfig::new(c.local.clone(), c.remote.clone(), c.cookie.clone()).with_timeout(Duration::from_millis(CONN_TIMEOUT_MS));
+    let flags = cfg.flags.as_u64();
+    let creation = cfg.creation.value();
+    let mut conn = Connection::new(cfg);
+    let t0 = std::time::Instant::now();
+    let res = tokio::time::timeout(Duration::from_millis(4000), conn.connect()).await;
+    let elapsed = t0.elapsed();
+    let state = conn.state().as_str().to_lowercase();
+    let neg = conn.negotiated_flags().map(|f| f.as_u64().to_string()).unwrap_or("-".into());
+    drop(conn);
+    let _ = done_tx.send(());
+    esrv.abort();
+    let (written, ack_sent) = match peer {
+        Some(p) => tokio::time::timeout(Duration::from_millis(4000), p).await.ok().and_then(|r| r.ok()).unwrap_or_default(),
+        None => (vec![], None),
+    };
+    let restxt = match &res {
+        Err(_) => "hang".to_string(),
+        Ok(Ok(())) => "ok".to_string(),
+        Ok(Err(e)) => format!("err-{}", conn_eclass(e)),
+    };
+    // the client's own challenge, as its reply shows it (the last 21-byte 'r' frame in what it wrote)
+    let mut our = 0u32;
+    let mut i = 0;
+    while i + 2 <= written.len() {
+        let n = u16::from_be_bytes([written[i], written[i + 1]]) as usize;
+        if i + 2 + n <= written.len() && n == 21 && written[i + 2] == b'r' {
+            our = u32::from_be_bytes([written[i + 3], written[i + 4], written[i + 5], written[i + 6]]);
+        }
+        i += 2 + n;
+    }
+    let ack_ev = match (&c.ack, &ack_sent) {
+        (_, Some(b)) => Ev::Frame(b.clone()),
+        (AckEv::Ev(e), None) => e.clone(),
+        _ => Ev::Silent,
+    };
+    ctx.count(&format!("connect_{}", restxt));
+    ctx.count(&format!("connect_state_{}", state));
+    // the TCP connect goes to the host part of the remote name: only 127.0.0.1 has the listener
+    let host_ok = c.remote.split_once('@').map(|(_, h)| h == "127.0.0.1").unwrap_or(false);
+    let req = format!(
+        "c04connect {} {} {} {} {} {} {} {} {} {} {} {}",
+        hexarg(c.local.as_bytes()), hexarg(c.remote.as_bytes()), hexarg(c.cookie.as_bytes()), flags,
+        hexarg(&reply), if close { "close" } else { "open" }, if c.tcp_listens && host_ok { "listen" } else { "refuse" },
+        ev_text(&c.status), ev_text(&c.chal), ev_text(&ack_ev), our, creation
+    );
+    ctx.tie(tag, &req, &format!("{} {} neg={} w={}", restxt, state, neg, hexarg(&written)));
+    let text = format!("{} -> {} {} in {} ms", req, restxt, state, elapsed.as_millis());
+    if restxt == "hang" || elapsed > Duration::from_millis(CONN_TIMEOUT_MS * 16) {
+        ctx.fail("c04net-not-within-timeout", &text);
+    }
+    // the property, judged by the Spec on what the peer saw and sent
+    // a peer that would have acknowledged correctly but was never asked is `good` for the oracle
+    let ack_for_oracle = if matches!(c.ack, AckEv::Good) && ack_sent.is_none() { "good".to_string() } else { ev_text(&ack_ev) };
+    // `env`: EPMD answered with a well-formed PORT2_RESP naming a port that listens on the host of the remote name
+    let env_ok = c.epmd_reply.is_none() && c.tcp_listens && host_ok;
+    ctx.prop("connect", &format!("c04p_connect {} {} {} {} {} {} {} {} {} {} {} {}", hexarg(c.local.as_bytes()), hexarg(c.cookie.as_bytes()), flags,
+        ev_text(&c.status), ev_text(&c.chal), ack_for_oracle, our, restxt, state, format!("{},{}", neg, hexarg(&written)),
+        hexarg(c.remote.as_bytes()), if env_ok { "envok" } else { "envbad" }), "ok");
+}
+
+async fn connect_cases(ctx: &mut Ctx) {
+    let chal_of = |flags: u64, ch: u32, name: &str| -> Vec<u8> {
+        let mut v = vec![b'N'];
+        v.extend_from_slice(&flags.to_be_bytes());
+        v.extend_from_slice(&ch.to_be_bytes());
+        v.extend_from_slice(&0x6655_4433u32.to_be_bytes());
+        v.extend_from_slice(&(name.len() as u16).to_be_bytes());
+        v.extend_from_slice(name.as_bytes());
+        v
+    };
+    let base = |k: usize, rng: &mut crate::rng::Rng| -> ConnCase {
+        let pc = rng.next() as u32;
+        let flags = if rng.chance(1, 2) { rng.next() } else { 0x0000_000d_07df_7fbd };
+        ConnCase {
+            local: format!("cli{}@127.0.0.1", k),
+            remote: format!("raw{}@127.0.0.1", k),
+            cookie: ["secret", "", "kéks-üñí", "x"][k % 4].to_string(),
+            epmd_reply: None,
+            tcp_listens: true,
+            status: Ev::Frame(b"sok".to_vec()),
+            chal: Ev::Frame(chal_of(flags, pc, &format!("raw{}@127.0.0.1", k))),
+            ack: AckEv::Good,
+            peer_challenge: pc,
+        }
+    };
+    let mut k = 0usize;
+    macro_rules! case {
+        ($tag:expr, |$c:ident| $body:block) => {{
+            k += 1;
+            #[allow(unused_mut)]
+            let mut $c = base(k, &mut ctx.rng);
+            $body
+            connect_case(ctx, $tag, $c).await;
+        }};
+    }
+    // the complete handshake, every cookie kind, random peer flags (negotiated = intersection, all 64 bits)
+    for _ in 0..ctx.n(8, 40) {
+        case!("connect-good", |c| {});
+    }
+    case!("connect-good", |c| { c.status = Ev::Frame(b"sok_simultaneous".to_vec()); });
+    // boundary names: 255 bytes on either side are fine, 256 are refused (local: after the TCP connect; remote: before EPMD)
+    case!("connect-name", |c| { c.local = format!("{}@h", "l".repeat(253)); });
+    case!("connect-name", |c| { c.local = format!("{}@h", "l".repeat(254)); });
+    case!("connect-name", |c| { c.local = "ü".repeat(127) + "@"; });
+    case!("connect-name", |c| { c.local = "ü".repeat(128); });
+    case!("connect-name", |c| { c.local = String::new(); });
+    case!("connect-name", |c| { c.remote = format!("{}@127.0.0.1", "r".repeat(255)); c.chal = Ev::Frame(chal_of(1, c.peer_challenge, "x@y")); });
+    case!("connect-name", |c| { c.remote = format!("{}@127.0.0.1", "r".repeat(256)); });
+    case!("connect-name", |c| { c.remote = "noat".into(); });
+    case!("connect-name", |c| { c.remote = "@127.0.0.1".into(); });
+    case!("connect-name", |c| { c.remote = "x@".into(); });
+    case!("connect-name", |c| { c.remote = "a@127.0.0.1@b".into(); });
+    // EPMD on the path
+    let full = port2_resp(1, 77, 0, 6, 5, 1, b"x", 0, &[]);
+    case!("connect-epmd", |c| { c.epmd_reply = Some((vec![119, 1], true)); });
+    case!("connect-epmd", |c| { c.epmd_reply = Some((vec![], true)); });
+    case!("connect-epmd", |c| { c.epmd_reply = Some((vec![], false)); });
+    case!("connect-epmd", |c| { c.epmd_reply = Some((full[..7].to_vec(), false)); });
+    case!("connect-epmd", |c| { c.epmd_reply = Some((full[..7].to_vec(), true)); });
+    case!("connect-epmd", |c| { c.epmd_reply = Some((port2_resp(1, 77, 0, 6, 5, 300, b"x", 0, &[]), true)); });
+    case!("connect-epmd", |c| { c.epmd_reply = Some((port2_resp(1, 77, 0, 6, 5, 1, b"x", 5000, &[]), false)); });
+    case!("connect-epmd", |c| { c.epmd_reply = Some((vec![121, 0, 0, 1], true)); });
+    case!("connect-tcp", |c| { c.tcp_listens = false; });
+    // one event per awaited read
+    for (i, ev) in [Ev::Close, Ev::Silent, Ev::Frame(vec![]), Ev::Frame(b"snok".to_vec()), Ev::Frame(b"snot_allowed".to_vec()), Ev::Frame(b"salive".to_vec()),
+        Ev::Frame(b"xok".to_vec()), Ev::Frame(b"s".to_vec()), Ev::Frame(b"sokay".to_vec()), Ev::Frame(b"snamed:x".to_vec())].into_iter().enumerate() {
+        let _ = i;
+        case!("connect-status", |c| { c.status = ev.clone(); });
+    }
+    for sel in 0..9 {
+        case!("connect-challenge", |c| {
+            let good = chal_of(0xffff_ffff_ffff_ffff, c.peer_challenge, "p@q");
+            c.chal = match sel {
+                0 => Ev::Close,
+                1 => Ev::Silent,
+                2 => Ev::Frame(vec![]),
+                3 => Ev::Frame(good[..11].to_vec()),
+                4 => Ev::Frame(good[..19].to_vec()),
+                5 => Ev::Frame([vec![b'n'], good[1..].to_vec()].concat()),
+                6 => { let mut g = good.clone(); g[18] = 200; Ev::Frame(g) }
+                7 => Ev::Frame([good.clone(), vec![1, 2, 3]].concat()),
+                _ => Ev::Frame([vec![b'a'], vec![0u8; 16]].concat()),
+            };
+        });
+    }
+    for sel in 0..10 {
+        case!("connect-ack", |c| {
+            c.ack = match sel {
+                0 => AckEv::Ev(Ev::Close),
+                1 => AckEv::Ev(Ev::Silent),
+                2 => AckEv::Ev(Ev::Frame(vec![])),
+                3 => AckEv::Ev(Ev::Frame([vec![b'a'], vec![0x5a; 16]].concat())),
+                4 => AckEv::ForPeerChallenge,
+                5 => AckEv::OtherCookie(format!("{}x", c.cookie)),
+                6 => AckEv::Ev(Ev::Frame(vec![b'a', 1, 2, 3])),
+                7 => AckEv::Ev(Ev::Frame(b"sok".to_vec())),
+                8 => AckEv::OtherCookie(String::new()),
+                _ => AckEv::Good,
+            };
+        });
+    }
+    // random mixtures
+    for _ in 0..ctx.n(10, 120) {
+        case!("connect-random", |c| {
+            let r = ctx.rng.below(12);
+            match r {
+                0 => c.status = Ev::Frame(ctx.rng.bytes(3)),
+                1 => c.chal = Ev::Frame(ctx.rng.bytes(24)),
+                2 => c.ack = AckEv::Ev(Ev::Frame([vec![b'a'], ctx.rng.bytes(16)].concat())),
+                3 => c.cookie = String::from_utf8_lossy(&ctx.rng.bytes(9)).to_string(),
+                4 => c.ack = AckEv::ForPeerChallenge,
+                5 => c.status = Ev::Frame(b"snok".to_vec()),
+                _ => {}
+            }
+        });
+    }
 }
